@@ -522,6 +522,8 @@ def run(ctx):
     parent_search(ctx)
     accessor(ctx)
     level_source(ctx)
+    import common as _common
+    _common.arm_effect_unconditional(ctx, 'V7', 'Layer', 'asefile::parse::ParseInfo::add_layer')     # every layer chunk counts, in any frame
     # what a visible layer shows is the cel stored for it: a later cel chunk of a lower layer must not drop it (seed C09-p)
     render.cel_rows_grow_only(ctx, rule='V2')
     layer_cap(ctx)
